@@ -71,7 +71,7 @@ pub enum RK {
     Req { a: Src, map: bool },
     Stream { a: Src, map: bool },
     ReqReq { a: Src, b: Src },
-    ReqStream { a: Src, b: Src },
+    ReqStream { a: Src, b: Src, notify: Option<S> },
     /// `stuck`: widened alternative after the in-flight inner request was dropped
     StreamReq { a: Src, b: Src, stuck: bool },
     StreamStream { a: Src, bsite: S, bs: Vec<Src> },
@@ -441,7 +441,12 @@ impl RCmd {
                 P::ReqStream(s, u) => {
                     let mut a = Src::new(s);
                     cx.eff(&mut a, Kind::Once, 0);
-                    t.kind = RK::ReqStream { a, b: Src::new(u) };
+                    t.kind = RK::ReqStream { a, b: Src::new(u), notify: None };
+                }
+                P::IntoFuture(s, n, u) => {
+                    let mut a = Src::new(s);
+                    cx.eff(&mut a, Kind::Once, 0);
+                    t.kind = RK::ReqStream { a, b: Src::new(u), notify: Some(n) };
                 }
                 P::StreamReq(s, u) => {
                     let mut a = Src::new(s);
@@ -569,9 +574,13 @@ impl RCmd {
                 }
                 Run::Pending
             }
-            RK::ReqStream { a, b } => {
+            RK::ReqStream { a, b, notify } => {
                 if let St::V(v) = a.st {
                     a.st = St::X;
+                    if let Some(n) = notify {
+                        let mut src = Src::new(*n);
+                        cx.eff(&mut src, Kind::Never, v);
+                    }
                     cx.eff(b, Kind::Many, v);
                 }
                 for w in std::mem::take(&mut b.q) {
@@ -765,7 +774,7 @@ impl RK {
             RK::Req { a, .. } | RK::Stream { a, .. } | RK::ChildReq { a } | RK::StreamChild { a }
             | RK::Burst { a, .. } | RK::SpawnAfter { a, .. } | RK::Producer { a, .. } | RK::SibAborter { a, .. } => vec![a],
             RK::Aborter { b, .. } => vec![b],
-            RK::ReqReq { a, b } | RK::ReqStream { a, b } | RK::StreamReq { a, b, .. } | RK::Join { a, b }
+            RK::ReqReq { a, b } | RK::ReqStream { a, b, .. } | RK::StreamReq { a, b, .. } | RK::Join { a, b }
             | RK::Select { a, b } => vec![a, b],
             RK::StreamStream { a, bs, .. } => {
                 let mut v = vec![a];
@@ -781,7 +790,7 @@ impl RK {
             RK::Req { a, .. } | RK::Stream { a, .. } | RK::ChildReq { a } | RK::StreamChild { a }
             | RK::Burst { a, .. } | RK::SpawnAfter { a, .. } | RK::Producer { a, .. } | RK::SibAborter { a, .. } => vec![a],
             RK::Aborter { b, .. } => vec![b],
-            RK::ReqReq { a, b } | RK::ReqStream { a, b } | RK::StreamReq { a, b, .. } | RK::Join { a, b }
+            RK::ReqReq { a, b } | RK::ReqStream { a, b, .. } | RK::StreamReq { a, b, .. } | RK::Join { a, b }
             | RK::Select { a, b } => vec![a, b],
             RK::StreamStream { a, bs, .. } => {
                 let mut v = vec![a];
